@@ -1,6 +1,6 @@
 (* C12 - time steps follow the documented adaptive rule and its bounds. *)
 From Coq Require Import Reals List Arith Bool.
-From PyTdgl Require Import Base.Ops Model.Adapt Proofs.AdaptP.
+From PyTdgl Require Import Base.Ops Base.Cplx Model.FV Model.Step Model.Adapt Model.Update Proofs.AdaptP Proofs.UpdateP.
 Import ListNotations.
 Open Scope R_scope.
 
@@ -90,3 +90,38 @@ Theorem C12_dt_grows_to_max :
                   if Nat.ltb (window _ o) i then dt_max _ o else dt_init _ o)).
 Proof. exact dt_grows_to_max. Qed.
 Print Assumptions C12_dt_grows_to_max.
+
+(* ---- the retry loop wrapped around the real solve step (Model.Update) ---- *)
+(* an answered update: the result is the solve step AT THE REPORTED dt; the reported dt is proposal * mult^r with
+   r <= max_retries + 1; every earlier (larger) attempt was refused by the step itself; bookkeeping uses the dt used *)
+Theorem C12_update_answered :
+  forall (a : nat -> R) (n : nat) (es : list (edge OpsR)) (fixed : list nat) (solve : (nat -> R) -> nat -> R)
+         (repin : option (C OpsR)) (expi : R -> C OpsR) (gamma u : R) (o : opts OpsR) s idx i psi mu dt s' out,
+    update OpsR a n es fixed solve repin expi gamma u o s idx i psi mu = Some (dt, s', out) ->
+    attempt OpsR a n es fixed solve repin expi gamma u i psi mu dt = Some out /\
+    (exists r, (r <= max_retries _ o + 1)%nat /\ dt = tentative _ s * mult _ o ^ r /\
+               (forall j, (j < r)%nat ->
+                  attempt OpsR a n es fixed solve repin expi gamma u i psi mu (tentative _ s * mult _ o ^ j) = None) /\
+               (r = 0%nat \/ adaptive _ o = true)) /\
+    s' = bookkeep OpsR o s idx dt (dmax OpsR n psi (so_psi _ out)).
+Proof. exact update_answered. Qed.
+Print Assumptions C12_update_answered.
+
+Theorem C12_update_refused :
+  forall (a : nat -> R) (n : nat) (es : list (edge OpsR)) (fixed : list nat) (solve : (nat -> R) -> nat -> R)
+         (repin : option (C OpsR)) (expi : R -> C OpsR) (gamma u : R) (o : opts OpsR) s idx i psi mu,
+    update OpsR a n es fixed solve repin expi gamma u o s idx i psi mu = None ->
+    attempt OpsR a n es fixed solve repin expi gamma u i psi mu (tentative _ s) = None.
+Proof. exact update_refused. Qed.
+Print Assumptions C12_update_refused.
+
+(* the adaptive solver loop is a run of solve steps with the time steps the controller chose *)
+Theorem C12_solver_run_is_run_steps :
+  forall (a : nat -> R) (n : nat) (es : list (edge OpsR)) (fixed : list nat) (solve : (nat -> R) -> nat -> R)
+         (repin : option (C OpsR)) (expi : R -> C OpsR) (gamma u : R) (o : opts OpsR) l s idx psi mu,
+    let ans := answered (solver_run OpsR a n es fixed solve repin expi gamma u o s idx psi mu l) in
+    run_steps OpsR a n es fixed solve repin expi gamma u psi mu
+      (map (fun p => with_dt OpsR (fst p) (snd p)) (combine l (map fst ans)))
+    = map (fun p => Some (snd p)) ans.
+Proof. exact solver_run_is_run_steps. Qed.
+Print Assumptions C12_solver_run_is_run_steps.
